@@ -5,6 +5,7 @@ import RsModel.Lemmas.PosTree
 import RsModel.Lemmas.ReplayNames
 import RsModel.Lemmas.ReplayLines
 import RsModel.Lemmas.MappedNE
+import RsModel.Lemmas.ReplayMap
 /-!
 # C10 — CachedSource is transparent for every call history
 -/
@@ -195,5 +196,46 @@ theorem c10_replay_lines (id : Nat) (inner : Src) (σ : Store)
   have := replay_lines (inner.stream ⟨false, false⟩ σ).1 hpos htl hsmall sm hm L h1 (by rw [htext]; exact hL)
   rw [htext] at this
   simpa [streamSM] using this
+
+
+/-- **C10, cache filled by `map()`** (columns = true): let `inner` be a tree of the domain of C03 whose `map()` is `get_map`
+(OriginalSource, ConcatSource, ReplaceSource with replacements), wrapped in a CachedSource with a cold cache.  After `map()` has
+filled the cache, streaming the wrapper replays the text through the stored map — and attributes every byte to exactly the
+original location the wrapped source's own stream attributes it to. -/
+theorem c10_replay_after_map (id : Nat) (inner : Src) (σ σN : Store) (h : inner.ModeHypC) (hn : inner.ids.Nodup) (hc : Cold σ inner.ids) (hcN : Cold σN inner.ids)
+    (ha : IsAscii inner.src) (hl : inner.src.length ≤ USIZE_MAX)
+    (hsmall : ∀ m ∈ chunkMs (inner.stream ⟨true, true⟩ σ).1.evs, m.small)
+    (hmap : inner.map ⟨true, false⟩ σ = getMap inner ⟨true, false⟩ σ)
+    (hcold : σ.get? (id, ⟨true, false⟩) = none) (hfresh : id ∉ inner.ids)
+    (sm : SMap) (hm : (getMap inner ⟨true, false⟩ σ).1 = some sm) :
+    let first := (Src.cached id inner).map ⟨true, false⟩ σ
+    let second := (Src.cached id inner).stream ⟨true, false⟩ first.2
+    first.1 = some sm ∧ attrOf second.1.evs = attrOf (inner.stream ⟨true, false⟩ σN).1.evs := by
+  intro first second
+  have hfirst : first = ((getMap inner ⟨true, false⟩ σ).1, (getMap inner ⟨true, false⟩ σ).2.insertNew (id, ⟨true, false⟩) (getMap inner ⟨true, false⟩ σ).1) := by
+    show (Src.cached id inner).map ⟨true, false⟩ σ = _
+    simp only [Src.map, hcold, hmap]
+  have hstill : (getMap inner ⟨true, false⟩ σ).2.get? (id, ⟨true, false⟩) = none := by
+    simp only [getMap]
+    rw [Src.stream_store_other inner _ σ (id, ⟨true, false⟩) hfresh]; exact hcold
+  have hget : first.2.get? (id, ⟨true, false⟩) = some (some sm) := by
+    rw [hfirst]
+    simp only
+    rw [get_insertNew_self _ _ _ hstill, hm]
+  refine ⟨by rw [hfirst]; exact hm, ?_⟩
+  have hsecond : second = (Src.cached id inner).stream ⟨true, false⟩ first.2 := rfl
+  rw [hsecond]
+  simp only [Src.stream, hget, streamSM]
+  obtain ⟨b1, b2, b3, b4, _, _, b7⟩ := Src.base_factsC inner h hn σ σN hc hcN
+  have hm3 := Src.m3c inner h hn σ σN hc hcN
+  have hmm : sm.mappings = encodeFull (chunkMs (inner.stream ⟨true, true⟩ σ).1.evs) := by
+    simp only [getMap] at hm
+    exact mapOfEvs_mappings _ sm hm
+  rw [replay_of_final inner.src _ b7 hm3.sorted (Src.strictC inner h hn σ hc) ha hl hsmall sm hmm]
+  rw [(lookEq_iff inner.src _ _).1 hm3.look]
+  have := attr_of_stream _ b1 b2 b3
+  rw [b4] at this
+  exact this
+
 
 end Rs
